@@ -477,10 +477,33 @@ def check_property(prop, tier, seed):
         # function were checked with the failed one assumed, so they are not established for this property: undecided (never a
         # violation of this property), unless the changed text is unchanged (then it is reported as flaky below anyway)
         fn_props = dict((r['key'], r['props']) for r in ur.functions)
+        # modular verification: a function is checked against the CONTRACTS of its callees, so a failing callee voids the proofs of
+        # its (transitive) callers: a failure in a function that does not itself serve this property, but is called -- directly or
+        # not -- by one that does, makes the property undecided as well (e.g. _clear, called by _compile, for every diagram property)
+        callee_of_serving = set()
+        try:
+            if ur.meta and ur.failures:
+                gl = open(os.path.join(BUILD, ur.unit + '.rs')).read().split('\n')
+                names = {}
+                for f in ur.meta['functions']:
+                    names.setdefault(f['name'], set()).add(f['key'])
+                calls = {}
+                for f in ur.meta['functions']:
+                    body = '\n'.join(gl[f['gen_lines'][0] - 1:f['gen_lines'][1]])
+                    calls[f['key']] = set(k for n, ks in names.items() for k in ks if k != f['key'] and re.search(r'(?<![A-Za-z0-9_])' + re.escape(n) + r'\s*(::<[^>]*>)?\(', body))
+                work = [k for k, pr in fn_props.items() if prop in pr or not pr]
+                while work:
+                    k = work.pop()
+                    for c in calls.get(k, ()):
+                        if c not in callee_of_serving:
+                            callee_of_serving.add(c)
+                            work.append(c)
+        except Exception:
+            pass
         for fl in ur.failures:
             if fl in relevant_fail or fl['fn'] not in fn_props:
                 continue
-            if prop in fn_props[fl['fn']] and not match_known(known, prop, ur.unit, fl) \
+            if (prop in fn_props[fl['fn']] or fl['fn'] in callee_of_serving) and not match_known(known, prop, ur.unit, fl) \
                     and not any(k.get('kind') == 'obligation' and k.get('unit') == ur.unit and k.get('function') == fl['fn'] for k in known.get('findings', [])):
                 foreign.append((ur, fl))
         for r in ur.functions + ur.lemmas:
@@ -601,7 +624,7 @@ def check_property(prop, tier, seed):
                            'native_replay': {'case': ws[0], 'args': ws[1], 'output': out_w, 'confirmed_on_real_code': True}}
                 violations.append(('%s_%s_witness' % (ur.unit, fl['fn']), payload, True))
         if not found:
-            undecided.append('%s: clause %s (another property) of %s fails on the changed text; %s serves %s too and its other clauses were checked with the failed one assumed: undecided for %s, no failing input found'
+            undecided.append('%s: clause %s (another property) of %s fails on the changed text; %s serves %s too (or is called by a function that does) and the dependent proofs were checked with the failed clause assumed: undecided for %s, no failing input found'
                              % (ur.unit, fl['labels'], fl['fn'], fl['fn'], prop, prop))
 
     # ---- Kani harnesses ----
